@@ -756,11 +756,64 @@ type churnRun struct {
 
 const churnCadence = 40 * time.Millisecond
 
+// guardedSource stands between a real Listener and the real BlockBroadcaster: Subscribe and
+// Unsubscribe go to the broadcaster unchanged, blocks are forwarded one by one.  If the
+// broadcaster closes the channel of a listener that did not unsubscribe, the listener is not
+// shown the closed channel (it would spin on it forever, which would hide the finding behind a
+// hang); the event is recorded instead.
+type guardedSource struct {
+	bb           *chain.BlockBroadcaster
+	mu           sync.Mutex
+	id           int
+	unsubscribed bool
+	closedEarly  bool
+	stop         chan struct{}
+}
+
+func (g *guardedSource) Subscribe(delay bool) (int, chan chain.Block) {
+	id, real := g.bb.Subscribe(delay)
+	g.mu.Lock()
+	g.id = id
+	g.mu.Unlock()
+	out := make(chan chain.Block)
+	go func() {
+		for {
+			select {
+			case b, ok := <-real:
+				if !ok {
+					g.mu.Lock()
+					if !g.unsubscribed {
+						g.closedEarly = true
+					}
+					g.mu.Unlock()
+					return
+				}
+				select {
+				case out <- b:
+				case <-g.stop:
+					return
+				}
+			case <-g.stop:
+				return
+			}
+		}
+	}()
+	return id, out
+}
+
+func (g *guardedSource) Unsubscribe(id int) {
+	g.mu.Lock()
+	g.unsubscribed = true
+	g.mu.Unlock()
+	g.bb.Unsubscribe(id)
+}
+
 type churnSub struct {
 	who      int
 	id       int
 	ch       chan chain.Block
 	lst      *chain.Listener
+	guard    *guardedSource
 	events   <-chan chain.ChainEvent
 	from, to int // first / last block index it is attached for (to = -1: until the end)
 	mu       sync.Mutex
@@ -771,6 +824,11 @@ type churnSub struct {
 }
 
 func runChurn(t *testing.T, p churnRun, d *directObs) {
+	defer func() {
+		if r := recover(); r != nil {
+			d.violate("a churn run on the real broadcaster did not end cleanly", map[string]any{"run": p, "panic": fmt.Sprint(r)})
+		}
+	}()
 	synctest.Test(t, func(t *testing.T) {
 		conf := config.Blocks{Genesis: new(big.Int).SetUint64(p.Genesis), Cadence: config.Duration(churnCadence), Duration: p.Blocks}
 		bb := chain.NewBlockBroadcaster(conf, p.MaxDelay, quiet, nil)
@@ -780,9 +838,18 @@ func runChurn(t *testing.T, p churnRun, d *directObs) {
 		attach := func(who, from int) {
 			s := &churnSub{who: who, from: from, to: -1, stop: make(chan struct{}), ended: make(chan struct{})}
 			if p.Listener {
-				s.lst = chain.NewListener(bb, quiet)
+				s.guard = &guardedSource{bb: bb, stop: make(chan struct{})}
+				s.lst = chain.NewListener(s.guard, quiet)
 				noFinalizer(s.lst)
 				s.events = s.lst.Subscribe(chain.BlockChannel)
+				synctest.Wait() // the listener has subscribed
+				s.guard.mu.Lock()
+				s.id = s.guard.id
+				s.guard.mu.Unlock()
+				if other, dup := active[s.id]; dup {
+					d.violate("Subscribe handed out the id of a subscription that is still active", map[string]any{"run": p, "id": s.id, "new": who, "holder": other.who})
+				}
+				active[s.id] = s
 			} else {
 				s.id, s.ch = bb.Subscribe(p.MaxDelay > 0)
 				if other, dup := active[s.id]; dup {
@@ -834,6 +901,8 @@ func runChurn(t *testing.T, p churnRun, d *directObs) {
 				s.lst.VerifStop()
 			} else {
 				bb.Unsubscribe(s.id)
+			}
+			if active[s.id] == s {
 				delete(active, s.id)
 			}
 		}
@@ -891,6 +960,14 @@ func runChurn(t *testing.T, p churnRun, d *directObs) {
 			if !p.Listener && s.to >= 0 && !s.closed {
 				d.violate("the channel of an unsubscribed subscriber was not closed", map[string]any{"run": p, "subscriber": s.who})
 			}
+			if p.Listener {
+				s.guard.mu.Lock()
+				early := s.guard.closedEarly
+				s.guard.mu.Unlock()
+				if early {
+					d.violate("the broadcaster closed the channel of a listener that had not unsubscribed", map[string]any{"run": p, "subscriber": s.who})
+				}
+			}
 			if !p.Listener && s.to < 0 && s.closed {
 				d.violate("the channel of a subscriber that is still attached was closed", map[string]any{"run": p, "subscriber": s.who})
 			}
@@ -900,6 +977,9 @@ func runChurn(t *testing.T, p churnRun, d *directObs) {
 		for _, s := range all {
 			if p.Listener && s.to < 0 {
 				s.lst.VerifStop()
+			}
+			if p.Listener {
+				close(s.guard.stop)
 			}
 			close(s.stop)
 			<-s.ended
